@@ -4,7 +4,7 @@ Import ListNotations.
 Open Scope Z_scope.
 (* input: (component path qs isdir); component 0 AddTrailingSlash, 1 RemoveTrailingSlash, 2/3 Echo/Group static
    output: (1 location) | (0 #) *)
-Definition run (x : sx) : sx :=
+Definition run_sx (x : sx) : sx :=
   let comp := as_Z (nth_sx 0 x) in
   let path := as_str (nth_sx 1 x) in
   let qs := as_str (nth_sx 2 x) in
